@@ -72,6 +72,13 @@ CHECKS.update({
                   'for the branch serving that class, sin and cos of every pre-normalisation angle equal those of the generating joint (numerators normalise to the zero polynomial) - completeness for every parameter set with c2>0 and non-zero reach radii. '
                   'Closure: table rows i+4 are (theta4+pi, -theta5, theta6-pi) of rows i and forward() is invariant under that map.', design='6/C02'),
 })
+CHECKS.update({
+ 'C19': dict(text='TREE LEVEL ONLY. from_yaml_file (after the loader), read_offsets, read_sign_corrections, parse_degrees executed from MIR on a symbolic yaml_rust2::Yaml tree of the documented shape: every geometric scalar independently Integer or Real '
+                  '(symbolic type flag and value), dof at the top level / nested / absent, arrays of 5 or 6, offsets as Integer | Real | deg(x) | x: Ok(p) with exactly those values (deg -> x*pi/180, padding, J6 sign 0 for dof 5); malformed trees (missing field, wrong lengths, '
+                  'non-numeric offset, empty document list) give Err and no panic obligation is reachable; the to_yaml format template (read from the MIR constant) puts dof at the top level. '
+                  'NOT covered (no engine here encodes them): the YAML scanner, float printing precision, arbitrary byte strings.', design='6/C19',
+             note='yaml_rust2 accessors (Index<&str>, as_f64 = Real only, as_i64 = Integer only, as_vec) and str::parse are small trusted models; the text level of the property is outside the claim and is only exercised natively by the replay battery (real YAML text through the real reader, to_yaml round trips).'),
+})
 PENDING = {}
 NA = {}
 def main():
